@@ -478,6 +478,14 @@ func buildSigned(t *rapid.T, s *sdSpec, otherCert *gx.Certificate, otherKey inte
 	case "signature":
 		sig = append([]byte{}, sig...)
 		sig[len(sig)-1-rapid.IntRange(0, 8).Draw(t, "sigbyte")] ^= 0x10
+	case "sig_reencoded":
+		// the same (r, s) with a third INTEGER inside the SEQUENCE: not the signature value that was produced
+		if len(sig) > 8 && sig[0] == 0x30 && int(sig[1]) == len(sig)-2 && sig[1] < 0x7b {
+			body := append(append([]byte{}, sig[2:]...), 0x02, 0x01, 0x01)
+			sig = append([]byte{0x30, byte(len(body))}, body...)
+		} else {
+			sig = append(append([]byte{}, sig...), 0)
+		}
 	}
 	cert := s.cert
 	if s.mut == "other_key_cert" {
@@ -543,6 +551,9 @@ func TestC17_Signed(t *testing.T) {
 			}
 		}
 		muts := []string{"", "", "content", "signature", "other_key_sig", "other_key_cert"}
+		if s.sm2 {
+			muts = append(muts, "sig_reencoded")
+		}
 		if len(s.content) > 0 {
 			// the object is genuine; the verifier is handed other content (none, empty, a prefix, an extension)
 			muts = append(muts, "verify_nil", "verify_empty", "verify_prefix", "verify_extended")
